@@ -34,9 +34,12 @@ def model {α} [Num α] : KModel α where
   run := fun p ins st =>
     match p, ins, st with
     | [_x, pointInput, deltaT], [a, b, c, d], [sm] =>
-      let r := run pointInput deltaT sm (zip4 a b c d)
+      let xs := zip4 a b c d
+      let r := run pointInput deltaT sm xs
+      let low := fun (i : α × α × α × α) => i.2.2.1 * deltaT + i.2.2.2 < minimumVolume
       .ok { outputs := [r.2.map (·.outflowLoad), r.2.map (·.pointSourceLoad)], states := [r.1],
-            tags := (if r.2.any (fun o => Num.feq o.pointSourceLoad pointInput && !(Num.feq o.outflowLoad Num.zero)) then ["normal"] else []) }
+            tags := (if xs.any low then ["lumped:flush"] else []) ++
+                    (if xs.any (fun i => !low i) then ["lumped:normal"] else []) }
     | _, _, _ => .error "arity"
 
 end OW.Kernels.LumpedConstituent
